@@ -58,8 +58,8 @@ def to_ref(items):
          for it in items])
 
 
-BASIS_FORMS_CLASSICAL = ["Basis", "list", "tuple", "string0", "string1", "dup", "redundant", "from_iterable", "set"]
-BASIS_FORMS_MESH = ["MeshBasis", "list", "tuple", "dup", "from_iterable"]
+BASIS_FORMS_CLASSICAL = ["Basis", "list", "tuple", "string0", "string1", "dup", "redundant", "from_iterable", "set", "iter", "gen"]
+BASIS_FORMS_MESH = ["MeshBasis", "list", "tuple", "dup", "from_iterable", "iter", "gen", "gen_from_iterable"]
 
 
 def gen_form(rng, items):
@@ -95,6 +95,12 @@ def mk_av(items, form, salt=0):
         return pm.Av(tuple(patts))
     if form == "set":
         return pm.Av(set(patts))
+    if form == "iter":
+        return pm.Av(iter(list(patts)))
+    if form == "gen":
+        return pm.Av(p for p in patts)
+    if form == "gen_from_iterable":
+        return pm.Av.from_iterable(p for p in patts)
     if form == "from_iterable":
         return pm.Av.from_iterable(list(patts))
     if form == "dup":
